@@ -1,6 +1,7 @@
 SPECIFICATION Spec
 CONSTANTS
   Addrs = {"a:1", "b:1", "c:1"}
+  Histories = {"fresh", "grew"}
   Traces = {"t1", "t2"}
   MaxSends = 2
 INVARIANTS OneOwner AtMostOneHop NoSelfForward
